@@ -34,8 +34,12 @@ def _case(draw):
     frac = draw(st.sampled_from([1.0, 1.0, 0.5, 0.25, 0.75]))
     R1 = max(common, math.floor(R2 * frac / common) * common) + draw(st.sampled_from([0.0, 0.0, 0.4])) * u
     spec = draw(gen.shot(look_max_deg=45.0, rel_deg=(-1.0, 6.0), range_ft=R2, max_winds=3))
-    t1 = draw(st.sampled_from([0.0, 0.0, 0.01, 0.05, 0.2]))
-    t2 = draw(st.sampled_from([0.0, t1, t1, 0.03, 0.1]))
+    # also time steps shorter than one integration step (0.25 ft / speed: 1e-4 s for a rifle, milliseconds for a lob)
+    t1 = draw(st.sampled_from([0.0, 0.0, 0.01, 0.05, 0.2, 2e-4, 1e-3, 2e-5]))
+    t2 = draw(st.sampled_from([0.0, t1, t1, 0.03, 0.1, 5e-4]))
+    if min(x for x in (t1, t2, 1.0) if x > 0) < 5e-3:
+        R2 = min(R2, 600.0)
+        R1 = min(R1, R2)
     req1 = {"R": R1, "s": a * u, "ts": t1, "extra": draw(st.booleans())}
     req2 = {"R": R2 + exc2, "s": b * u, "ts": t2, "extra": draw(st.booleans())}
     if draw(st.integers(0, 7)) == 0:
